@@ -60,6 +60,8 @@ def run(ctx, prop="C08"):
         steps = pipeline.make_steps(rng, rng.randint(6, 30), rng.choice([0.3, 1, 2]), reloads=nrel, excludes=rng.random() < 0.5)
         if sid % 3 == 1:       # directed scenarios: result-cache key collisions / exclude-reload-same-query
             kind = "cachekeys" if (sid % 2 == 1 or race) else ("exclude-reload" if sid % 4 == 0 else "exclude-race")
+            if kind == "cachekeys" and not race and sid % 12 == 7:
+                kind = "nth-cache"
             n = rng.choice([150, 330, 1200])
             lines = pipeline.make_lines(rng, n, sparse=True)
             sched = pipeline.make_schedule(rng, lines, 0.2)
@@ -69,6 +71,9 @@ def run(ctx, prop="C08"):
             nrel = 1 if kind == "exclude-reload" else 0
             relines = [pipeline.make_lines(rng, rng.choice([n, n, 200]), sparse=True) for _ in range(nrel)]
             rescheds = [pipeline.make_schedule(rng, rl, 0.2) for rl in relines]
+            if nrel and rng.random() < 0.6:     # a reload of exactly the same size arriving in one burst
+                relines = [pipeline.make_lines(rng, n, sparse=True)]
+                rescheds = [[{"sleep": 0, "lines": relines[0]}]]
             steps = pipeline.scenario_steps(rng, kind, nrel)
         jobs.append((sid, lines, sched, steps, relines, rescheds))
     if ctx.replay:
